@@ -148,8 +148,6 @@ func main() {
 		}
 		if small {
 			fmt.Fprintf(wo, "scan %s %s\n", join(addH), join(delH))
-		} else {
-			fmt.Fprintln(wo, "nop")
 		}
 		var res map[string]interface{}
 		var err error
@@ -163,6 +161,9 @@ func main() {
 			res, err = ra.Consume(map[string]interface{}{items.DependencyTreeChanges: changes, items.DependencyBlobCache: cache})
 		}()
 		if panicked != "" || err != nil {
+			if !small {
+				fmt.Fprintln(wo, "nop")
+			}
 			fmt.Fprintln(wi, "error")
 			fail("Consume failed: " + panicked + fmt.Sprint(err))
 			continue
@@ -199,7 +200,53 @@ func main() {
 		if small {
 			fmt.Fprintf(wi, "m:%s a:%s d:%s\n", join(mH), join(saH), join(sdH))
 		} else {
-			fmt.Fprintln(wi, "ok")
+			// every reported rename is replayed by the model (legal pair? what is left?): ops rn2 <dels> <adds> <pairs>
+			idx := map[string]int{}
+			var ds, as []string
+			for i, c := range desc {
+				idx[c.Name] = i
+				switch c.Kind {
+				case "del":
+					ds = append(ds, fmt.Sprintf("%d:%s", i, c.Hash))
+				case "add":
+					as = append(as, fmt.Sprintf("%d:%s", i, c.Hash))
+				}
+			}
+			var ms []string
+			var ld, la []int
+			for _, c := range out {
+				a, _ := c.Action()
+				switch a {
+				case merkletrie.Insert:
+					la = append(la, idx[c.To.Name])
+				case merkletrie.Delete:
+					ld = append(ld, idx[c.From.Name])
+				case merkletrie.Modify:
+					if c.From.Name != c.To.Name {
+						ms = append(ms, fmt.Sprintf("%d>%d", idx[c.From.Name], idx[c.To.Name]))
+					}
+				}
+			}
+			sort.Ints(ld)
+			sort.Ints(la)
+			j := func(x []string) string {
+				if len(x) == 0 {
+					return "-"
+				}
+				return strings.Join(x, ",")
+			}
+			ji := func(x []int) string {
+				if len(x) == 0 {
+					return "-"
+				}
+				s := make([]string, len(x))
+				for i, v := range x {
+					s[i] = fmt.Sprint(v)
+				}
+				return strings.Join(s, ",")
+			}
+			fmt.Fprintf(wo, "rn2 %s %s %s\n", j(ds), j(as), j(ms))
+			fmt.Fprintf(wi, "ok d:%s a:%s\n", ji(ld), ji(la))
 		}
 		bad := false
 		for _, p := range [][2][]string{{delNames, gotDel}, {addNames, gotAdd}, {modNames, gotMod}} {
